@@ -30,6 +30,7 @@ const (
 	typPingDelay = uint32(mt.PingDelayDisconnectRequestTypeID)
 	typGetSalts  = uint32(mt.GetFutureSaltsRequestTypeID)
 	typAck       = uint32(mt.MsgsAckTypeID)
+	typDrop      = uint32(mt.RPCDropAnswerRequestTypeID)
 	typReq       = uint32(0x7e570001) // harness request (Invoke input)
 	typResp      = uint32(0x7e570002) // harness response (Invoke output)
 	typSentinel  = uint32(0x7e5700ff) // unknown to mtproto: goes to Handler.OnMessage
@@ -54,6 +55,7 @@ type frame struct {
 	TypeID  uint32 `json:"type_id"`
 	PingID  int64  `json:"ping_id,omitempty"`
 	ReqN    int64  `json:"req_n,omitempty"`
+	DropID  int64  `json:"drop_req_msg_id,omitempty"`
 	Bad     string `json:"bad,omitempty"`
 }
 
@@ -69,6 +71,8 @@ func (f *frame) kind() string {
 		return "msgs_ack"
 	case typReq:
 		return "request"
+	case typDrop:
+		return "rpc_drop_answer"
 	}
 	return fmt.Sprintf("0x%08x", f.TypeID)
 }
@@ -133,6 +137,10 @@ type link struct {
 	nextToken  int64
 	overflow   bool
 
+	honorCtx bool          // Send fails with ctx.Err() when its context is already done
+	recvFail chan struct{} // closed: Recv returns a read error
+	failOnce sync.Once
+
 	in        chan []byte
 	notify    chan *frame
 	sessionEv chan int64
@@ -151,6 +159,7 @@ type linkOpts struct {
 	pingInterval time.Duration
 	pingTimeout  time.Duration
 	ackBatch     int
+	honorCtx     bool
 }
 
 func newLink(c *mon.Ctx, r *rand.Rand, o linkOpts) *link {
@@ -168,6 +177,8 @@ func newLink(c *mon.Ctx, r *rand.Rand, o linkOpts) *link {
 		notify:    make(chan *frame, 8192),
 		sessionEv: make(chan int64, 64),
 		closed:    make(chan struct{}),
+		recvFail:  make(chan struct{}),
+		honorCtx:  o.honorCtx,
 		runDone:   make(chan error, 1),
 		ready:     make(chan struct{}),
 	}
@@ -273,6 +284,9 @@ func (l *link) Send(ctx context.Context, b *bin.Buffer) error {
 		return io.ErrClosedPipe
 	default:
 	}
+	if l.honorCtx && ctx.Err() != nil {
+		return ctx.Err()
+	}
 	wire := append([]byte(nil), b.Buf...)
 	f := &frame{TNano: l.clk.Now().UnixNano()}
 	d, err := refmodel.Decrypt(l.key, wire, false)
@@ -295,6 +309,10 @@ func (l *link) Send(ctx context.Context, b *bin.Buffer) error {
 		case typReq:
 			if len(body) >= 12 {
 				f.ReqN = int64(binary.LittleEndian.Uint64(body[4:]))
+			}
+		case typDrop:
+			if len(body) >= 12 {
+				f.DropID = int64(binary.LittleEndian.Uint64(body[4:]))
 			}
 		}
 	}
@@ -328,9 +346,19 @@ func (l *link) Recv(ctx context.Context, b *bin.Buffer) error {
 		return nil
 	case <-ctx.Done():
 		return ctx.Err()
+	case <-l.recvFail:
+		return errors.New("harness: transport read error")
 	case <-l.closed:
 		return io.EOF
 	}
+}
+
+// failRead makes every further Recv fail: the read loop ends and Run tears the connection down.
+func (l *link) failRead() {
+	l.failOnce.Do(func() {
+		l.log("transport-read-error", 0, 0, "")
+		close(l.recvFail)
+	})
 }
 
 func (l *link) Close() error {
